@@ -23,7 +23,7 @@ type slot struct {
 }
 
 var slots = []slot{
-	{"attr-name", 8}, {"action-name", 5}, {"entity-annotations", 4}, {"attr-annotations", 3}, {"shape", 3}, {"appliesTo", 5}, {"optional", 2},
+	{"attr-name", 8}, {"action-name", 5}, {"entity-annotations", 4}, {"attr-annotations", 3}, {"shape", 3}, {"appliesTo", 7}, {"optional", 2},
 	{"attr-type", 17}, {"enum", 4}, {"action-parents", 5}, {"placement", 3}, {"tags", 5}, {"entity-parents", 5}, {"common-type", 5}, {"ns-annotations", 3}, {"action-annotations", 3}, {"empty-namespace", 4},
 }
 
@@ -140,6 +140,12 @@ func build(c []int) *sast.Schema {
 		applies = &sast.AppliesTo{Principals: []sast.EntityTypeRef{"U"}, Resources: []sast.EntityTypeRef{"G"}}
 	case 4:
 		applies = &sast.AppliesTo{Principals: []sast.EntityTypeRef{"U"}, Resources: []sast.EntityTypeRef{"G"}, Context: sast.Type("Ctx")}
+	case 5:
+		// the context named by a QUALIFIED reference to a common type of another namespace
+		applies = &sast.AppliesTo{Principals: []sast.EntityTypeRef{"U"}, Resources: []sast.EntityTypeRef{"G"}, Context: sast.Type("Shared::Sub::SCtx")}
+	case 6:
+		// several principal and resource types, entity types of another namespace among them
+		applies = &sast.AppliesTo{Principals: []sast.EntityTypeRef{"U", "G", "Shared::Sub::SE"}, Resources: []sast.EntityTypeRef{"Shared::Sub::SE", "G"}, Context: sast.RecordType{"q": sast.Attribute{Type: sast.EntityType("Shared::Sub::SE"), Optional: true}}}
 	}
 	var aparents []sast.ParentRef
 	switch c[9] {
@@ -216,6 +222,15 @@ func build(c []int) *sast.Schema {
 			s.Namespaces = sast.Namespaces{}
 		}
 		s.Namespaces["Other"] = other
+	}
+	if c[5] >= 5 {
+		if s.Namespaces == nil {
+			s.Namespaces = sast.Namespaces{}
+		}
+		s.Namespaces["Shared::Sub"] = sast.Namespace{
+			CommonTypes: sast.CommonTypes{"SCtx": sast.CommonType{Type: sast.RecordType{"c": sast.Attribute{Type: sast.Long(), Optional: true}}}},
+			Entities:    sast.Entities{"SE": sast.Entity{}},
+		}
 	}
 	return s
 }
@@ -455,7 +470,7 @@ func Check() *core.Check {
 		ID:        "C17",
 		HangAfter: 120 * time.Second, // cases take at most seconds (max_case_s in the evidence); see core.Family.HangAfter
 		Title:     "Schema codecs round-trip and preserve the resolved schema",
-		Rule: "bounded deviation enumeration: a base schema using every construct, with 17 feature slots (names needing quotes for attributes and actions, annotations with / without value on namespaces, entities, attributes, actions and common types, empty / missing shapes, all appliesTo forms, optional attributes, 17 attribute types incl. nested records, records and sets nested 20 deep, sets, entity and extension references, common and built-in type references, enums with 0-3 values, action parents unqualified / qualified / cross-namespace / bare `Action::` naming the empty namespace from inside a namespace, placement at top level / in a namespace / in a nested namespace, tags, parent lists, common-type chains, a declared but empty namespace (plain / annotated / nested name)); every configuration with at most the stated number of slots deviating from the base; oracle: Resolve(parse(render(S))) equals Resolve(S) for text and JSON (canonical form: maps sorted, parent / appliesTo lists as sets, nil == empty), second rendering byte-identical, decoding into a schema value that already holds declarations gives the same result, text->JSON and JSON->text commute with Resolve, resolution errors preserved; " +
+		Rule: "bounded deviation enumeration: a base schema using every construct, with 17 feature slots (names needing quotes for attributes and actions, annotations with / without value on namespaces, entities, attributes, actions and common types, empty / missing shapes, all appliesTo forms (incl. a context named by a qualified common-type reference into a nested namespace, principal / resource types of another namespace), optional attributes, 17 attribute types incl. nested records, records and sets nested 20 deep, sets, entity and extension references, common and built-in type references, enums with 0-3 values, action parents unqualified / qualified / cross-namespace / bare `Action::` naming the empty namespace from inside a namespace, placement at top level / in a namespace / in a nested namespace, tags, parent lists, common-type chains, a declared but empty namespace (plain / annotated / nested name)); every configuration with at most the stated number of slots deviating from the base; oracle: Resolve(parse(render(S))) equals Resolve(S) for text and JSON (canonical form: maps sorted, parent / appliesTo lists as sets, nil == empty), second rendering byte-identical, decoding into a schema value that already holds declarations gives the same result, text->JSON and JSON->text commute with Resolve, resolution errors preserved; " +
 			"a configuration is non-trivial if the schema resolves",
 		Assumptions: []string{"Resolve itself is the reference for what a schema means"},
 		Families: func(tier string) []*core.Family {
